@@ -428,7 +428,7 @@ def run(ctx):
         else:
             core = all_ids if cid == "ISO" else list(CORE_RULES)
         rest = [r for r in all_ids if r not in core]
-        for ys in _split(sorted(wide), 24 if tier == "thorough" else (8 if cid == "ISO" else 2)):
+        for ys in _split(sorted(wide), (96 if cid == "ISO" else 12) if tier == "thorough" else (8 if cid == "ISO" else 2)):
             jobs.append((cid, tier, core, ys, False))
         if rest:
             for ys in _split(sorted(narrow), 4 if tier == "thorough" else 1):
